@@ -94,6 +94,9 @@ func init() {
 					}
 				}
 			}
+			for _, fx := range []int{0, 2} {
+				jobs = append(jobs, J("H_C04_tofloat", o, "fx", fx, "which", 0), J("H_C04_tofloat", o, "fx", fx, "which", 1), J("H_C04_tofloat", o, "fx", fx, "which", 2, "px", 19), J("H_C04_tofloat", o, "fx", fx, "which", 2, "px", 40))
+			}
 			// no other panic: the finite paths of the arithmetic, setters and decoders under the panic obligation only
 			po := obl("C04.")
 			for op := 0; op <= 1; op++ {
@@ -107,7 +110,7 @@ func init() {
 			return jobs
 		},
 		Bounds: map[string]string{
-			"quick":    "Add/Sub/Mul/Quo: all 8 form-class pairs with a zero or infinity (finite member: one word, any value) x dirty receiver; FMA: all 26 special triples; Sqrt of zeros, +Inf, negative values; no-other-panic: finite Add/Sub (1-2 words), Mul, SetPrec, SetBitsExp (incl. zero-precision receiver and empty slice), MantExp/SetMantExp, NewDecimal, SetInt, GobDecode of 3/9/18 arbitrary bytes, dec.mul 2x2, dec.div 2/1.",
+			"quick":    "Add/Sub/Mul/Quo: all 8 form-class pairs with a zero or infinity (finite member: one word, any value) x dirty receiver; FMA: all 26 special triples; Sqrt of zeros, +Inf, negative values; SetFloat64/SetFloat of +-0, +-Inf, NaN, 1.5, -0.1 from every previous receiver form; Float64/Float32/Float of zeros and infinities; no-other-panic: finite Add/Sub (1-2 words), Mul, SetPrec, SetBitsExp (incl. zero-precision receiver and empty slice), MantExp/SetMantExp, NewDecimal, SetInt, GobDecode of 3/9/18 arbitrary bytes, dec.mul 2x2, dec.div 2/1.",
 			"thorough": "as quick plus receiver == x and receiver == y for every special pair.",
 		},
 		Outside:     []string{"SetFloat64(NaN) and SetFloat: see C15", "panic freedom of the long division code for divisors of >= 2 words (C06) and of text conversion (C11-C13)", "FMA inside KF-fma-product-range (spurious ErrNaN when the intermediate product overflows and u is an infinity of the other sign)"},
